@@ -118,6 +118,24 @@ def install_capture():
     core.make_counterexample_message = wrapped
 
 
+def disable_short_circuit():
+    """CrossHair may *skip* a call to any function that carries a contract - including its own
+    patch of repr() (`post[]: True`) - and continue with an arbitrary value of the return type
+    (explored in parallel with the real call). That is sound for contract reasoning but it makes
+    every rendered text an unconstrained symbolic string that later comparisons fork on. The
+    harnesses never rely on contracts of callees, so optional short-circuiting is switched off."""
+    import crosshair.core as core
+
+    orig = core.consider_shortcircuit
+
+    def never_optional(fn, sig, bound, subconditions, allow_interpretation):
+        if allow_interpretation:
+            return None
+        return orig(fn, sig, bound, subconditions, allow_interpretation)
+
+    core.consider_shortcircuit = never_optional
+
+
 def analyze(fn, budget):
     import crosshair.core_and_libs  # noqa: F401  registers the opcode patches and library models
     from crosshair.core import analyze_function, run_checkables
@@ -215,6 +233,7 @@ def main():
     try:
         install_accounting()
         install_capture()
+        disable_short_circuit()
         mod, src = load_harness(case)
         budget = float(case.get("budget", 45))
         # 1. reachability twin
